@@ -122,7 +122,7 @@ MANIFEST_ENTRY = {
     'engine': 'crosshair+sched',
     'technique': 'bounded symbolic execution (CrossHair/z3) of the real provider transaction + report + consumer update path with '
                  'symbolic version counters and payloads; snapshot-equality and index-vs-scan oracle',
-    'text': 'For each of 17 transaction kinds (and 2-transaction sequences) every path of the real provider->report->consumer code is '
+    'text': 'For each of 27 transaction kinds (11 state, 16 descriptor) (and 2-transaction sequences) every path of the real provider->report->consumer code is '
             'explored with unconstrained natural version counters; "Confirmed over all paths" means the mirror property holds for ALL '
             'version values and all short payload strings on the small MDIB, one step from an arbitrary pre-state.',
     'note': 'Report XML (de)serialisation is an identity stub; MDIB content other than versions/payload is concrete; histories > 2 steps '
